@@ -263,6 +263,11 @@ def run_binary_representation(ctx):
                 reqs.append(f'C06.commutative {name} {et} {eu} {enc_ext(IDENT[name])} {len(ids) + 5}')
                 meta.append((dict(case, via='commutative'), want))
                 ctx.count('commutative-representation')
+            if name == 'sub':
+                # sub has its own shortcut ((-u) + t in the last branch): transcription Bn.shortcut2 (theorem C06t.shortcut2_eq_binary)
+                reqs.append(f'C06.shortcut2 sub {et} {eu} {len(ids) + 5}')
+                meta.append((dict(case, via='commutative'), want))
+                ctx.count('shortcut2-representation')
     for (case, want), rep in zip(meta, ctx.driver.ask_many(reqs)):
         if isinstance(rep, Exception):
             raise rep
